@@ -31,7 +31,7 @@ ASSUME = list(META["note"].split("; stated restrictions: ")[1].split(", "))
 def plan(tier):
     if tier == "quick":
         return {"ncases": 640, "nshards": 16, "budget_s": 75, "floor": 3000, "stall_s": 60}
-    return {"ncases": 30000, "nshards": 16, "budget_s": 1500, "floor": 200000, "stall_s": 240}
+    return {"ncases": 30000, "nshards": 16, "budget_s": 1500, "floor": 100000, "stall_s": 240}
 
 
 NAMES = ["A", "B", "C", "D"]
